@@ -154,8 +154,8 @@ def parseItems (cv : Conv) : List Item → List Bytes → Option (List Vals)
       | some vs => some (v :: vs)
 
 /-- record text → `DeckRecord` (tokenise, then parse). -/
-def parseRecord (cv : Conv) (schema : List Item) (record : Bytes) (next : UInt8) : Option (List Vals) :=
-  match rawRecord record next with
+def parseRecord (cv : Conv) (schema : List Item) (record : Bytes) : Option (List Vals) :=
+  match rawRecord record with
   | none => none
   | some ts => parseItems cv schema ts
 
